@@ -233,6 +233,11 @@ func damage(seg []byte, variant int64, r *rand.Rand) ([]byte, string) {
 		}
 		return out, "key length beyond the record"
 	default:
+		if r.IntN(2) == 0 {
+			// a frame shorter than a batch header (the broker does not validate this field of a client's batch)
+			binary.BigEndian.PutUint32(out[32+8:32+12], uint32(r.IntN(62)))
+			return out, "batch length field smaller than a batch header"
+		}
 		binary.BigEndian.PutUint32(out[32+8:32+12], uint32(r.IntN(1<<31)))
 		return out, "batch length field arbitrary"
 	}
